@@ -9,6 +9,7 @@ inductive Val where
   | bool (b : Bool)
   | num (n : Int)
   | str (s : String)
+  | err (name : String)          -- a native error object, identified by its constructor name
 deriving DecidableEq, Repr, Inhabited
 
 /-- concrete expression language used by the driver/harness (the theorems never look inside) -/
